@@ -1,7 +1,12 @@
 #!/venv/bin/python
 """Verify and take in seeded changes produced by a sub-agent.
 
-usage: tools/seed_intake.py <PROP> [<PROP> ...]
+usage: tools/seed_intake.py [--root /tmp/seed2] [--offset 3] <PROP> ...
+
+The scratch worktree is first moved to /repo's current HEAD, so that what is
+kept is verified against the tree the checks run on; a patch that no longer
+applies there is tried with a 3-way merge and otherwise reported for porting
+by hand.
 
 For each /tmp/seed/<PROP>/_seed/<i>/ (patch.diff, demo*.py, notes.md) this
 re-verifies, in the scratch worktree /tmp/seed/<PROP>:
@@ -41,13 +46,23 @@ def suite(wt):
 
 
 def main():
-    for prop in sys.argv[1:]:
-        wt = '/tmp/seed/' + prop
+    args = sys.argv[1:]
+    root, offset = '/tmp/seed', 0
+    while args and args[0].startswith('--'):
+        if args[0] == '--root':
+            root = args[1]
+        elif args[0] == '--offset':
+            offset = int(args[1])
+        args = args[2:]
+    head = sh('git rev-parse HEAD', '/repo')[1].strip()
+    for prop in args:
+        wt = root + '/' + prop
         sh('git checkout -q -- slimta test', wt)
+        sh('git checkout -q --detach ' + head, wt)
         base_pass, base_fail, base_failed, _ = suite(wt)
         for d in sorted(glob.glob(wt + '/_seed/[0-9]*')):
             i = os.path.basename(d)
-            name = '%s-%s' % (prop.lower(), i)
+            name = '%s-%d' % (prop.lower(), int(i) + offset)
             patch = os.path.join(d, 'patch.diff')
             demos = sorted(glob.glob(os.path.join(d, 'demo*.py')))
             if not os.path.exists(patch) or not demos:
@@ -58,6 +73,11 @@ def main():
             rc_clean, out_clean = sh('%s %s' % (PY, demo), wt, 120)
             rc, out = sh('git apply --check %s && git apply %s' % (patch,
                                                                    patch), wt)
+            if rc != 0:
+                rc, out = sh('git apply --3way %s && git reset -q' % patch,
+                             wt)
+                if rc == 0:
+                    sh('git diff > %s' % patch, wt)
             if rc != 0:
                 print('REJECT %s: patch does not apply: %s' % (name,
                                                                out[:200]))
@@ -88,6 +108,7 @@ def main():
             touched = re.findall(r'^ (\S+)\s+\|', files, re.M)
             meta = {
                 'property': prop,
+                'base_commit': head,
                 'origin': 'independent sub-agent given only the property '
                           'text and a scratch worktree (nothing from /verif)',
                 'files_touched': touched,
@@ -100,8 +121,8 @@ def main():
                     'demo_on_clean_tree_rc': rc_clean,
                     'demo_with_patch_rc': rc_patched,
                     'commands': [
-                        'cd /tmp/seed/%s && git apply _seed/%s/patch.diff'
-                        % (prop, i),
+                        'cd %s && git apply _seed/%s/patch.diff'
+                        % (wt, i),
                         PY + ' -m pytest -q -p no:cacheprovider '
                         '--timeout=900 --continue-on-collection-errors',
                         '%s _seed/%s/%s (clean and patched)' % (
